@@ -433,6 +433,10 @@ static void run_custom(ACtx &c, int id, uint64_t variant)
 	}
 	case F_FILTERS: {
 		Chain ch; small_chain(ch, 3);
+		// other orders of filters with and without options (options, none, options; none, options, options, options)
+		static lzma_options_delta d2; d2.type = LZMA_DELTA_TYPE_BYTE; d2.dist = 9;
+		if (variant % 3 == 1) { ch.f[0].id = LZMA_FILTER_DELTA; ch.f[0].options = &ch.delta; ch.f[1].id = LZMA_FILTER_X86; ch.f[1].options = nullptr; ch.f[2].id = LZMA_FILTER_LZMA2; ch.f[2].options = &ch.lz; ch.f[3].id = LZMA_VLI_UNKNOWN; ch.f[3].options = nullptr; }
+		else if (variant % 3 == 2) { ch.f[0].id = LZMA_FILTER_DELTA; ch.f[0].options = &d2; ch.f[1].id = LZMA_FILTER_ARM; ch.f[1].options = nullptr; ch.f[2].id = LZMA_FILTER_DELTA; ch.f[2].options = &ch.delta; ch.f[3].id = LZMA_FILTER_LZMA2; ch.f[3].options = &ch.lz; ch.f[4].id = LZMA_VLI_UNKNOWN; ch.f[4].options = nullptr; }
 		lzma_filter dst[LZMA_FILTERS_MAX + 1];
 		for (auto &f : dst) { f.id = 0x7777; f.options = (void *)0x1234; }
 		uint64_t before = c.al.failures;
